@@ -160,6 +160,17 @@ func checkInterpret(c Case) error {
 			}
 		}
 	}
+	if model.Root != nil {
+		// an entry for the archive root prescribes mode and time of the destination directory
+		if g, ok := got["."]; ok {
+			if int64(g.Mode&0777) != model.Root.Perm {
+				problems = append(problems, fmt.Sprintf("destination directory: permission bits %04o, the archive's root entry records %04o", g.Mode&0777, model.Root.Perm))
+			}
+			if g.Mtime != model.Root.MtimeNs {
+				problems = append(problems, fmt.Sprintf("destination directory: mtime %d, the archive's root entry records %d", g.Mtime, model.Root.MtimeNs))
+			}
+		}
+	}
 	for p, g := range got {
 		if p == "." {
 			continue
@@ -289,6 +300,10 @@ func genEntry(unpriv bool) *rapid.Generator[tarx.Entry] {
 		case k < 75:
 			e.Type = "dir"
 			e.Name += "/"
+			if rapid.IntRange(0, 11).Draw(t, "rootentry") == 0 {
+				// an entry for the archive root itself, as tar writes it for the packed directory
+				e.Name = rapid.SampledFrom([]string{"./", ".", "/", "a/.."}).Draw(t, "rootname")
+			}
 			if unpriv {
 				e.Mode = rapid.SampledFrom([]int64{0755, 0555, 0500, 0700, 0750, 0711}).Draw(t, "dmode")
 			} else {
@@ -303,7 +318,7 @@ func genEntry(unpriv bool) *rapid.Generator[tarx.Entry] {
 			}
 		case k < 94:
 			e.Type = "xglobal"
-			e.Name = "pax_global_header"
+			e.Name = rapid.SampledFrom([]string{"pax_global_header", "pax_global_header", "stray/sub/pax_global_header", "a/pax_global_header"}).Draw(t, "gname")
 			e.PAX = map[string]string{"comment": "g"}
 			e.Format = ""
 			e.Nsec = 0
